@@ -89,7 +89,7 @@ Starts == [code   |-> [text |-> <<>>, stack |-> <<"code">>],
            sq     |-> [text |-> <<"x = '">>, stack |-> <<"code", "sq">>],
            dq     |-> [text |-> <<"f \"a">>, stack |-> <<"code", "dq">>],
            tmpl   |-> [text |-> <<"'{">>, stack |-> <<"code", "sq", "tmpl">>],
-           fmt    |-> [text |-> <<"'{a:">>, stack |-> <<"code", "sq", "fmt">>],
+           fmt    |-> [text |-> <<"a = 'U+00E9;U+65E5;xU+1F600;'\nb = 3.5\n'{b:8.1}{a:">>, stack |-> <<"code", "sq", "fmt">>],
            tmplsq |-> [text |-> <<"\"{'">>, stack |-> <<"code", "dq", "tmpl", "sq">>],
            raw    |-> [text |-> <<"r#'">>, stack |-> <<"code", "raw">>],
            cm     |-> [text |-> <<"a #-">>, stack |-> <<"code", "cm">>],
